@@ -7,7 +7,7 @@
 From Coq Require Import List Bool ZArith NArith QArith Arith Permutation.
 From DV Require Import Common.Res Common.Str Generated.T_group Group.Model Group.Spec
   Group.ProofsBase Group.ProofsGroup Group.ProofsClasses Group.ProofsSkip Group.ProofsIsolation Group.Examples
-  Group.ProofsReal.
+  Group.ProofsKeys Group.ProofsReal.
 From DV Require Stack.Model.
 Import ListNotations.
 
@@ -69,20 +69,22 @@ Theorem C18_permutation :
     same_member_sets gs gs' /\ w = w'.
 Proof. intros F gb ct atol warn l l' gs w gs' w' Ha. apply permutation_invariant; exact Ha. Qed.
 
-(** An unreadable file in warn mode, or a data set without pixels in either mode, anywhere in the list:
-    the result is that of the list without it, with one more warning. *)
+(** An entry that is skipped in the given mode - an unreadable file or a file whose meta data cannot be
+    extracted (read -> is_image test -> extractor, in that order) in warn mode, a data set without pixels in
+    either mode - anywhere in the list: the result is that of the list without it, with one more warning. *)
 Theorem C18_skip :
   forall (F : Type) (group_by close_tests : list str) (atol : Q) (warn : bool) (l1 l2 : list (rd F)) x,
-    skipped x = true -> (warn = true \/ exists attrs f m, x = Data attrs f m) ->
+    skipped_in warn x = true ->
     parse_and_group group_by close_tests atol warn (l1 ++ x :: l2)
     = bump_warn 1 (parse_and_group group_by close_tests atol warn (l1 ++ l2)).
 Proof. intros. apply skip; assumption. Qed.
 
-(** Strict mode: the exception of the first unreadable file propagates. *)
+(** Strict mode: the exception of the first unreadable / not extractable image file propagates. *)
 Theorem C18_skip_strict :
-  forall (F : Type) (group_by close_tests : list str) (atol : Q) (l1 l2 : list (rd F)) e st,
+  forall (F : Type) (group_by close_tests : list str) (atol : Q) (l1 l2 : list (rd F)) x e st,
+    strict_error x = Some e ->
     run group_by close_tests atol false ([], 0%nat) l1 = Ok st ->
-    parse_and_group group_by close_tests atol false (l1 ++ Fault e :: l2) = Err e.
+    parse_and_group group_by close_tests atol false (l1 ++ x :: l2) = Err e.
 Proof. intros. eapply skip_strict; eassumption. Qed.
 
 (** stack_group, warn mode: if add_dcm is transactional, a file it refuses leaves the stack identical
@@ -101,14 +103,32 @@ Theorem C18_stack_strict :
     stack_group state add false init (g1 ++ f :: g2) = Err e.
 Proof. intros. eapply stack_skip_strict; eassumption. Qed.
 
-(** parse_and_stack, warn mode, end to end.  [p] selects the files to keep.  If every image file failing [p]
-    is refused by (transactional) add_dcm when its turn comes, a fresh stack holds no file, and every group
-    that starts with a dropped file consists of dropped files only (a group may lose ALL its files: it is then
-    absent from both results; a group that keeps a file keeps its first one, otherwise its key would change
-    to another representative), then the result is the result for the path list without those files: the same
-    (key, stack) pairs - the order of the returned dict is not part of the statement - and one more warning
-    per dropped file. *)
+(** parse_and_stack, warn mode, end to end, for ANY set of refused files.  [p] selects the files to keep.  If
+    every image file failing [p] is refused by (transactional) add_dcm when its turn comes, a fresh stack holds
+    no file, payloads are distinct and closeness is an equivalence on the values present, then - both groupings
+    succeeding - the path list without those files gives the same stacks under keys that correspond one to one:
+    equal on the exactly compared entries, close ([keys_close], the code's own test) on the tolerance-compared
+    ones; one warning less per dropped file.  A group that loses all its files is absent from both results.
+    Exact equality of the keys is NOT claimed: see [C18_parse_and_stack_isolation_refuted]. *)
 Theorem C18_parse_and_stack_isolation :
+  forall (F state : Type) (add : state -> F -> state * option err) (n_files : state -> nat) (p : F -> bool)
+         (group_by : list str) (atol : Q) init (l : list (rd F)) gs w gs2 w2,
+    0 <= atol -> transactional add -> n_files init = 0%nat ->
+    parse_and_group group_by default_close_keys atol true l = Ok (gs, w) ->
+    parse_and_group group_by default_close_keys atol true (drop_files p l) = Ok (gs2, w2) ->
+    NoDup (map fst (imgs l)) ->
+    close_equiv group_by default_close_keys atol (map snd (imgs l)) ->
+    (forall g, In g gs -> refused_along p add init (snd g)) ->
+    exists sts sts' w',
+      parse_and_stack state add n_files group_by atol true init l
+        = Ok (sts, (length l - length (drop_files p l) + w')%nat) /\
+      parse_and_stack state add n_files group_by atol true init (drop_files p l) = Ok (sts', w') /\
+      same_stacks_up_to_keys group_by default_close_keys atol sts sts'.
+Proof. intros. eapply parse_and_stack_isolation_keys; eassumption. Qed.
+
+(** The keys are EQUAL (and no equivalence is needed) when no group loses its first file while keeping
+    another one ([heads_closed]): then the key's representative of a tolerance-compared value is the same. *)
+Theorem C18_parse_and_stack_isolation_exact :
   forall (F state : Type) (add : state -> F -> state * option err) (n_files : state -> nat) (p : F -> bool)
          (group_by : list str) (atol : Q) init (l : list (rd F)) gs w,
     0 <= atol -> transactional add -> n_files init = 0%nat ->
@@ -122,6 +142,34 @@ Theorem C18_parse_and_stack_isolation :
       Permutation sts sts'.
 Proof. intros. eapply parse_and_stack_isolation; eassumption. Qed.
 
+(** ... and without [heads_closed] exact equality of the keys is false, of this model and of the code alike: the
+    key of a group carries the tolerance-compared values of the first file SEEN, also when that file is then
+    refused.  Witness: [add0] refuses file 0 of [ex_l]; with it the group {0,1} is keyed by file 0's
+    orientation, without it by file 1's (3e-5 away): same stacks, different keys. *)
+Theorem C18_parse_and_stack_isolation_refuted :
+  exists (add : list nat -> nat -> list nat * option err) (p : nat -> bool) (l : list (rd nat)) gs w gs2 w2,
+    transactional add /\
+    parse_and_group default_group_keys default_close_keys group_atol true l = Ok (gs, w) /\
+    parse_and_group default_group_keys default_close_keys group_atol true (drop_files p l) = Ok (gs2, w2) /\
+    NoDup (map fst (imgs l)) /\
+    close_equiv default_group_keys default_close_keys group_atol (map snd (imgs l)) /\
+    (forall g, In g gs -> refused_along p add [] (snd g)) /\
+    forall sts sts' n n',
+      parse_and_stack (list nat) add (@length nat) default_group_keys group_atol true [] l = Ok (sts, n) ->
+      parse_and_stack (list nat) add (@length nat) default_group_keys group_atol true [] (drop_files p l) = Ok (sts', n') ->
+      ~ Permutation sts sts'.
+Proof.
+  exists add0, not0, ex_l. eexists. eexists. eexists. eexists.
+  split; [exact add0_transactional|]. split; [vm_compute; reflexivity|]. split; [vm_compute; reflexivity|].
+  split; [vm_compute; repeat constructor; cbn; intuition discriminate|].
+  split; [apply close_equivb_sound; vm_compute; reflexivity|]. split.
+  - intros g [<-|[<-|[<-|[]]]]; cbn; repeat split; eauto.
+  - intros sts sts' n n' E1 E2 Hp.
+    assert (K : forallb (fun a => existsb (fun b => key_eqb (fst a) (fst b)) sts') sts = true).
+    { apply forallb_forall. intros a Ha. apply existsb_exists. exists a. split; [eapply Permutation_in; eassumption | apply key_eqb_refl]. }
+    vm_compute in E1. vm_compute in E2. injection E1 as <- _. injection E2 as <- _. vm_compute in K. discriminate.
+Qed.
+
 (** The same two statements with [add] := the Stack model's add_dcm ([real_add st f] = the state after
     [Stack.Model.step st (OAdd f)] and the exception; equal to [add_of_res Stack.Model.add_dcm]).  The
     hypothesis "transactional" is discharged by C11's lemma (a refused add leaves the stack as it was). *)
@@ -132,6 +180,23 @@ Theorem C18_stack_real :
 Proof. exact stack_real. Qed.
 
 Theorem C18_parse_and_stack_isolation_real :
+  forall (p : Stack.Model.file -> bool) (group_by : list str) (atol : Q) (time_order vector_order : bool)
+         (l : list (rd Stack.Model.file)) gs w gs2 w2,
+    let init := Stack.Model.init time_order vector_order in
+    0 <= atol ->
+    parse_and_group group_by default_close_keys atol true l = Ok (gs, w) ->
+    parse_and_group group_by default_close_keys atol true (drop_files p l) = Ok (gs2, w2) ->
+    NoDup (map fst (imgs l)) ->
+    close_equiv group_by default_close_keys atol (map snd (imgs l)) ->
+    (forall g, In g gs -> refused_along p real_add init (snd g)) ->
+    exists sts sts' w',
+      parse_and_stack _ real_add real_n_files group_by atol true init l
+        = Ok (sts, (length l - length (drop_files p l) + w')%nat) /\
+      parse_and_stack _ real_add real_n_files group_by atol true init (drop_files p l) = Ok (sts', w') /\
+      same_stacks_up_to_keys group_by default_close_keys atol sts sts'.
+Proof. exact parse_and_stack_isolation_keys_real. Qed.
+
+Theorem C18_parse_and_stack_isolation_exact_real :
   forall (p : Stack.Model.file -> bool) (group_by : list str) (atol : Q) (time_order vector_order : bool)
          (l : list (rd Stack.Model.file)) gs w,
     let init := Stack.Model.init time_order vector_order in
@@ -190,14 +255,19 @@ Example C18_permutation_ex :
 Proof. split; [apply Permutation_rev | split; vm_compute; reflexivity]. Qed.
 
 Example C18_skip_ex :
-  skipped (nth 1 ex_l (Fault EValue)) = true /\ skipped (nth 3 ex_l (Fault EValue)) = true /\
+  skipped_in true (nth 1 ex_l (Fault EValue)) = true /\ skipped_in false (nth 3 ex_l (Fault EValue)) = true /\
+  skipped_in true ex_xfault = true /\ skipped_in false ex_xfault = false /\ skipped_in false ex_xnopix = true /\
   parse_and_group_default true (ex_l1 ++ Fault ECrash :: ex_l2) = bump_warn 1 (parse_and_group_default true (ex_l1 ++ ex_l2)) /\
+  parse_and_group_default true (ex_l1 ++ ex_xfault :: ex_l2) = bump_warn 1 (parse_and_group_default true (ex_l1 ++ ex_l2)) /\
+  parse_and_group_default false (ex_l1 ++ ex_xnopix :: ex_l2) = bump_warn 1 (parse_and_group_default false (ex_l1 ++ ex_l2)) /\
   is_ok (parse_and_group_default true (ex_l1 ++ ex_l2)) = true.
 Proof. repeat split; vm_compute; reflexivity. Qed.
 
 Example C18_skip_strict_ex :
   is_ok (run default_group_keys default_close_keys group_atol false ([], 0%nat) ex_l1) = true /\
+  strict_error ex_xfault = Some EValue /\ strict_error ex_xnopix = None /\
   parse_and_group_default false (ex_l1 ++ Fault ECrash :: ex_l2) = Err ECrash /\
+  parse_and_group_default false (ex_l1 ++ ex_xfault :: ex_l2) = Err EValue /\
   is_ok (parse_and_group_default false (ex_l1 ++ ex_l2)) = true.
 Proof. repeat split; vm_compute; reflexivity. Qed.
 
@@ -225,7 +295,7 @@ Proof. vm_compute. reflexivity. Qed.
 
 (** the toy add refuses the odd files: file 1 joins the group opened by file 0, file 3 is the only file of its
     group (the group disappears from the result).  Dropping both from the list gives the same stacks. *)
-Example C18_parse_and_stack_isolation_ex :
+Example C18_parse_and_stack_isolation_exact_ex :
   exists gs w,
     parse_and_group default_group_keys default_close_keys group_atol true ex_l = Ok (gs, w) /\
     map snd gs = [[0; 1]; [4]; [3]]%nat /\
@@ -263,7 +333,7 @@ Proof.
   - vm_compute. reflexivity.
 Qed.
 
-Example C18_parse_and_stack_isolation_real_ex :
+Example C18_parse_and_stack_isolation_exact_real_ex :
   exists gs w,
     parse_and_group default_group_keys default_close_keys group_atol true real_l = Ok (gs, w) /\
     map (fun g => map Stack.Model.f_id (snd g)) gs = [[0; 8; 1; 9]; [7]]%nat /\
@@ -279,4 +349,45 @@ Proof.
   - vm_compute. reflexivity.
   - vm_compute. reflexivity.
   - vm_compute. reflexivity.
+Qed.
+
+(** the main statement on the witness of the refutation: file 0 (first of its group) is refused, file 1 stays.
+    The stacks are the same, the key of the group {1} differs within the tolerance. *)
+Example C18_parse_and_stack_isolation_ex :
+  exists gs w gs2 w2,
+    parse_and_group default_group_keys default_close_keys group_atol true ex_l = Ok (gs, w) /\
+    parse_and_group default_group_keys default_close_keys group_atol true (drop_files not0 ex_l) = Ok (gs2, w2) /\
+    NoDup (map fst (imgs ex_l)) /\
+    close_equiv default_group_keys default_close_keys group_atol (map snd (imgs ex_l)) /\
+    (forall g, In g gs -> refused_along not0 add0 [] (snd g)) /\
+    ~ heads_closed not0 gs /\
+    rmap (fun r => (map snd (fst r), snd r)) (parse_and_stack_default (list nat) add0 (@length nat) true [] ex_l)
+      = Ok ([[1]; [4]; [3]]%nat, 3%nat) /\
+    rmap (fun r => (map snd (fst r), snd r)) (parse_and_stack_default (list nat) add0 (@length nat) true [] (drop_files not0 ex_l))
+      = Ok ([[1]; [4]; [3]]%nat, 2%nat) /\
+    keys_close default_group_keys default_close_keys group_atol
+      [GStr [49%N]; GInt 1; GStr [97%N]; GTup ax] [GStr [49%N]; GInt 1; GStr [97%N]; GTup ax_near].
+Proof.
+  eexists. eexists. eexists. eexists. split; [vm_compute; reflexivity|]. split; [vm_compute; reflexivity|].
+  split; [vm_compute; repeat constructor; cbn; intuition discriminate|].
+  split; [apply close_equivb_sound; vm_compute; reflexivity|]. split; [|split; [|split; [|split]]].
+  - intros g [<-|[<-|[<-|[]]]]; cbn; repeat split; eauto.
+  - intros Hc. specialize (Hc _ 0%nat (or_introl eq_refl) eq_refl eq_refl). vm_compute in Hc. discriminate.
+  - vm_compute. reflexivity.
+  - vm_compute. reflexivity.
+  - vm_compute. repeat split; reflexivity.
+Qed.
+
+Example C18_parse_and_stack_isolation_real_ex :
+  exists gs w gs2 w2,
+    parse_and_group default_group_keys default_close_keys group_atol true real_l = Ok (gs, w) /\
+    parse_and_group default_group_keys default_close_keys group_atol true (drop_files keep_real real_l) = Ok (gs2, w2) /\
+    NoDup (map (fun x => Stack.Model.f_id (fst x)) (imgs real_l)) /\
+    close_equiv default_group_keys default_close_keys group_atol (map snd (imgs real_l)) /\
+    (forall g, In g gs -> refused_along keep_real real_add sinit (snd g)).
+Proof.
+  eexists. eexists. eexists. eexists. split; [vm_compute; reflexivity|]. split; [vm_compute; reflexivity|].
+  split; [vm_compute; repeat constructor; cbn; intuition discriminate|].
+  split; [apply close_equivb_sound; vm_compute; reflexivity|].
+  intros g [<-|[<-|[]]]; vm_compute; repeat split; eauto.
 Qed.
